@@ -646,7 +646,7 @@ pub fn run(run: &mut Run) {
     run.require_class("language_server_settings", "has_lints", (n / 3) as u64);
     run.require_class("language_server_settings", "turns_on_a_default_off_rule", (n / 5) as u64);
     run.require_class("language_server_settings", "code_actions_compared", n as u64);
-    run.require_class("language_server_settings", "code_actions_asked_where_only_the_curated_config_has_a_lint", (n / 10) as u64);
+    run.require_class("language_server_settings", "code_actions_asked_where_only_the_curated_config_has_a_lint", (n / 20) as u64);
 }
 
 pub fn replay(check: &str, case: Value, _run: &mut Run) -> Result<(), String> {
